@@ -51,7 +51,13 @@ def handle9 (op : String) (a obs : List String) : Option Verdict :=
       match specFrame msg with
       | some (1, payload, []) => Spec.qpackDecode payload
       | _ => none
-    let status := if scenario == "connect_reject" then 404 else 200
+    let status := if scenario == "connect_reject" then Generated.STATUS_NOT_FOUND
+      else if scenario == "connect_forbidden" then Generated.STATUS_FORBIDDEN
+      else if scenario == "connect_too_many" then Generated.STATUS_TOO_MANY_REQUESTS
+      else Generated.STATUS_OK
+    -- the registered meaning (RFC 9110): not found 404, forbidden 403, too many requests 429
+    let statusSpec := if scenario == "connect_reject" then 404 else if scenario == "connect_forbidden" then 403
+      else if scenario == "connect_too_many" then 429 else 200
     let modelMsg : String :=
       if client then field obs "msg"   -- carries the server's port: checked by the property side
       else hex (Frame.write ⟨.headers, Headers.encode (Session.responseWithStatus status), none⟩)
@@ -61,7 +67,7 @@ def handle9 (op : String) (a obs : List String) : Option Verdict :=
       | some fs =>
         Spec.pseudoFirst ((specFrame msg).map (·.2.1) |>.getD []) &&
         (if client then Spec.requestWellFormed fs && Spec.lookup fs ":path" == Spec.str "/"
-         else (Spec.lookupOpt fs ":status").bind Spec.plainStatus == some status)
+         else (Spec.lookupOpt fs ":status").bind Spec.plainStatus == some statusSpec)
     let streams := scenario == "streams"
     let uniM := if streams then hex (StreamHeader.write ⟨.webtransport, some sid⟩ ++ [1, 2, 3]) else "-"
     let biM := if streams then hex (Frame.write ⟨.webtransport, [], some sid⟩ ++ [1, 2, 3]) else "-"
@@ -70,7 +76,7 @@ def handle9 (op : String) (a obs : List String) : Option Verdict :=
         | some x, some y => s!"{hex x},{hex y}"
         | _, _ => "?"
       else "-"
-    let sidM := if scenario == "connect_reject" then "-" else sidS
+    let sidM := if scenario == "connect_reject" || scenario == "connect_forbidden" || scenario == "connect_too_many" then "-" else sidS
     let model := [if ctrlOk then s!"ctrl={field obs "ctrl"}" else s!"ctrl={hex canonCtrl}", "other_uni=0",
       s!"msg={modelMsg}", s!"uni={uniM}", s!"bi={biM}", s!"dgrams={dgM}", s!"sid={sidM}",
       s!"ctrl_settings={sortedSettings adv}"]
